@@ -622,7 +622,7 @@ fn mutation_kinds() -> Vec<&'static str> {
          "union_member_not_object",
          "directive_unknown", "directive_misplaced", "directive_repeated",
          "dirarg_wrong_literal", "dirarg_missing_required", "dirarg_unknown", "dirarg_not_needed", "dirarg_null", "dirarg_enum_member",
-         "dirarg_input_field", "dirarg_variable",
+         "dirarg_input_field", "dirarg_variable", "dirarg_dup_ill_typed", "dirarg_nested_variable", "x_dup_literal_field", "dirarg_dup_literal_field_ill_typed",
          "directive_recursive_self", "directive_recursive_mutual", "directive_recursive_type", "directive_cycle_with_entry", "directive_recursive_type", "directive_recursive_type",
          // spec-invalid or odd documents outside the implemented rules: correspondence only (label x_*)
          "x_cross_kind_dup", "x_dup_directive_def", "x_ext_without_original", "x_dup_dirarg_in_app", "x_int_out_of_range", "x_nested_type_recursion", "x_empty_object", "x_empty_union"]
@@ -1037,6 +1037,31 @@ fn mutate(rng: &mut Rng, m: &mut Model, kind: &str) -> Option<(String, String)> 
             ds[k].args = Some(args);
             if kind == "dirarg_unknown" { ok("directive_args", &format!("unknown_arg:{tag}")) } else { ok("x_dup_dirarg_in_app", tag) }
         }
+        "dirarg_dup_ill_typed" | "dirarg_nested_variable" | "x_dup_literal_field" | "dirarg_dup_literal_field_ill_typed" => {
+            // a fresh directive with an Int, a custom-scalar and an input-object argument, applied at a random site
+            m.items.push(Item::D(DirDef { name: "dupd".into(), args: vec![
+                    Arg { name: "x".into(), ty: Ty::n("Int"), default: None, dirs: vec![], desc: None },
+                    Arg { name: "c".into(), ty: Ty::n("DupScalar"), default: None, dirs: vec![], desc: None },
+                    Arg { name: "i".into(), ty: Ty::n("DupIn"), default: None, dirs: vec![], desc: None }],
+                repeatable: true, locations: TS_LOCS.iter().map(|s| s.to_string()).collect(), desc: None }));
+            m.items.push(Item::T(TypeDef { name: "DupScalar".into(), kind: Kind::Scalar, dirs: vec![], desc: None, is_ext: false }));
+            m.items.push(Item::T(TypeDef { name: "DupIn".into(), kind: Kind::Input { fields: vec![
+                    Arg { name: "a".into(), ty: Ty::n("Int"), default: None, dirs: vec![], desc: None },
+                    Arg { name: "n".into(), ty: Ty::n("DupIn"), default: None, dirs: vec![], desc: None }] }, dirs: vec![], desc: None, is_ext: false }));
+            let ss = sites(m); let (st, _, tag) = rng.pick(&ss).clone();
+            let (args, label): (Vec<(&str, &str)>, &str) = match kind {
+                // every occurrence of an argument given twice is type-checked (7d19234)
+                "dirarg_dup_ill_typed" => (if rng.chance(1, 2) { vec![("x", "1"), ("x", "\"s\"")] } else { vec![("x", "true"), ("c", "1"), ("x", "2")] }, "directive_args"),
+                // variables nested in a literal given for a custom scalar (49e8e28)
+                "dirarg_nested_variable" => (vec![("c", *rng.pick(&["[1, $v]", "{k: $v}", "[[{k: [$a, 2]}], $b]"]))], "directive_args"),
+                // the same field twice in an input-object literal: well-typed both times (accepted; field uniqueness is not implemented) ...
+                "x_dup_literal_field" => (vec![("i", *rng.pick(&["{a: 1, a: 2}", "{n: {a: 1, a: 1}}"]))], "x_dup_literal_field"),
+                // ... or ill-typed the second time (reported since 7d19234)
+                _ => (vec![("i", *rng.pick(&["{a: 1, a: \"s\"}", "{n: {a: 1, a: true}}"]))], "directive_args"),
+            };
+            site_dirs(m, &st).push(App { name: "dupd".into(), args: Some(args.into_iter().map(|(k, v)| (k.to_string(), v.to_string())).collect()) });
+            ok(label, &format!("{}:{tag}", &kind[if kind.starts_with("x_") { 2 } else { 7 }..]))
+        }
         "dirarg_not_needed" => {
             let c = apps_where(m, &|_, d| d.args.is_empty());
             if c.is_empty() {
@@ -1144,11 +1169,28 @@ fn mutate(rng: &mut Rng, m: &mut Model, kind: &str) -> Option<(String, String)> 
                     ok("directive_recursive", site)
                 }
                 _ => {
-                    // @recn(a: RecOuter); input RecOuter { f: RecInner }; input RecInner { g: Int @recn }: recursion through a nested type
-                    m.items.insert(at, Item::D(DirDef { name: "recn".into(), args: vec![arg("a", Ty::n("RecOuter"), vec![])], repeatable: false, locations: loc(&["INPUT_FIELD_DEFINITION"]), desc: None }));
-                    m.items.push(Item::T(TypeDef { name: "RecOuter".into(), kind: Kind::Input { fields: vec![arg("f", Ty::n("RecInner"), vec![])] }, dirs: vec![], desc: None, is_ext: false }));
-                    m.items.push(Item::T(TypeDef { name: "RecInner".into(), kind: Kind::Input { fields: vec![arg("g", Ty::n("Int"), vec![app("recn")])] }, dirs: vec![], desc: None, is_ext: false }));
-                    ok("x_nested_type_recursion", "input_field_of_field_type")
+                    // recursion through nested input types (followed since 2bc0346): @recn(a: N0); input N0 { f: N1 } ... the last one
+                    // applies @recn; 2 or 3 levels; optionally the input types form a cycle (N_last.back: N0); control without
+                    // the directive on the way (label `valid`: an input-object cycle alone is no directive recursion)
+                    static NEXT_VARIANT: std::sync::atomic::AtomicUsize = std::sync::atomic::AtomicUsize::new(0);
+                    let v = NEXT_VARIANT.fetch_add(1, std::sync::atomic::Ordering::Relaxed) % 6;
+                    let levels = if v % 2 == 0 { 2 } else { 3 };
+                    let cyclic = v >= 2;
+                    let with_dir = v < 4;
+                    m.items.insert(at, Item::D(DirDef { name: "recn".into(), args: vec![arg("a", { let t = wrap(rng, "RecN0"); if let Ty::NonNull(x) = t { *x } else { t } }, vec![])],
+                                                         repeatable: false, locations: loc(&["INPUT_FIELD_DEFINITION", "INPUT_OBJECT"]), desc: None }));
+                    for l in 0..levels {
+                        let last = l + 1 == levels;
+                        let mut fields = vec![];
+                        if !last { fields.push(arg("f", { let t = wrap(rng, &format!("RecN{}", l + 1)); if let Ty::NonNull(x) = t { *x } else { t } }, vec![])); }
+                        if last { fields.push(arg("g", Ty::n("Int"), if with_dir { vec![app("recn")] } else { vec![] })); }
+                        if last && cyclic { fields.push(arg("back", Ty::l(Ty::nn(Ty::n("RecN0"))), vec![])); }
+                        if !last && cyclic && rng.chance(1, 2) { fields.push(arg("selfref", Ty::n(&format!("RecN{l}")), vec![])); }
+                        let at2 = rng.below(m.items.len() + 1);
+                        m.items.insert(at2, Item::T(TypeDef { name: format!("RecN{l}"), kind: Kind::Input { fields }, dirs: vec![], desc: None, is_ext: false }));
+                    }
+                    if with_dir { ok("directive_recursive", &format!("nested_input:{levels}{}", if cyclic { ":cyclic" } else { "" })) }
+                    else { ok("valid", &format!("nested_input_cycle_without_directive:{levels}")) }
                 }
             }
         }
@@ -1285,17 +1327,17 @@ fn corpus() -> Vec<(&'static str, &'static str, &'static str)> {
         ("directive_recursive", "corpus:self", "directive @a(x: Int @a) on ARGUMENT_DEFINITION\ntype Query { a: Int }\n"),
         ("directive_recursive", "corpus:three_cycle", "directive @a(x: Int @b) on ARGUMENT_DEFINITION\ndirective @b(x: Int @c) on ARGUMENT_DEFINITION\ndirective @c(x: Int @a) on ARGUMENT_DEFINITION\ntype Query { a: Int }\n"),
         ("valid", "corpus:diamond_no_cycle", "directive @a(x: Int @b @c) on FIELD\ndirective @b(x: Int @d) on ARGUMENT_DEFINITION\ndirective @c(x: Int @d) on ARGUMENT_DEFINITION\ndirective @d on ARGUMENT_DEFINITION\ntype Query { a: Int }\n"),
-        ("x_nested_type_recursion", "corpus:nested", "directive @r(a: Outer) on INPUT_FIELD_DEFINITION\ninput Outer { f: Inner }\ninput Inner { g: Int @r }\ntype Query { a: Int }\n"),
+        ("directive_recursive", "corpus:nested", "directive @r(a: Outer) on INPUT_FIELD_DEFINITION\ninput Outer { f: Inner }\ninput Inner { g: Int @r }\ntype Query { a: Int }\n"),
         ("valid", "corpus:extra_arg", "interface I { f: Int }\ntype Query implements I { f(extra: Int! = 3): Int }\n"),
         ("x_cross_kind_dup", "corpus:first_last", "type A { x: Int }\nscalar A\nunion U = A\ntype Query { a: A, u: U }\ninput In { a: A }\n"),
         ("x_cross_kind_dup", "corpus:last_first", "scalar A\ntype A { x: Int }\nunion U = A\ntype Query { a: A, u: U }\ninput In { a: A }\n"),
         ("x_dup_dirarg_in_app", "corpus:dup_arg", "directive @d(x: Int) on OBJECT\ntype Query @d(x: 1, x: 2) { a: Int }\n"),
-        ("directive_args", "corpus:dup_input_field_literal", "directive @d(x: In) on OBJECT\ninput In { a: Int }\ntype Query @d(x: {a: 1, a: 2}) { a: Int }\n"),
+        ("x_dup_literal_field", "corpus:dup_input_field_literal", "directive @d(x: In) on OBJECT\ninput In { a: Int }\ntype Query @d(x: {a: 1, a: 2}) { a: Int }\n"),
         ("valid", "corpus:list_coercion", "directive @d(x: [[Int]], y: [Int!]!, z: In) on OBJECT\ninput In { a: [In!], b: Float = 1 }\ntype Query @d(x: 1, y: [1, 2], z: {a: {a: [], b: 2}}) { a: Int }\n"),
         ("directive_args", "corpus:nested_errors", "directive @d(z: In!) on OBJECT\nenum E { A }\ninput In { a: [In!], e: E!, r: Int! }\ntype Query @d(z: {a: [{e: B, r: \"x\"}], e: A, q: 1}) { a: Int }\n"),
         ("directive_args", "corpus:int_range", "directive @d(x: Int) on OBJECT\ntype Query @d(x: 2147483648) { a: Int }\n"),
         // appended after the witnesses above (coq/C05/Witness.v was printed from the cases above, keep their order)
-        ("x_dup_dirarg_in_app", "corpus:dup_arg_shadows_ill_typed", "directive @d(x: Int) on OBJECT\ntype Query @d(x: 1, x: \"s\") { a: Int }\n"),
+        ("directive_args", "corpus:dup_arg_shadows_ill_typed", "directive @d(x: Int) on OBJECT\ntype Query @d(x: 1, x: \"s\") { a: Int }\n"),
         ("valid", "corpus:interfaces", "interface A { f(a: Int): [A] }\ninterface B implements A { f(a: Int, b: String): [B!] g: U }\ntype Query implements B & A { f(a: Int, b: String, c: ID = 1): [Query!]! g: Query }\nunion U = Query\n"),
         ("directive_args", "corpus:variables_inside_literals", "directive @d(x: [Int], y: In) on OBJECT\ninput In { a: Int, b: [In] }\ntype Query @d(x: [1, $v], y: {a: $w, b: [{a: $z}]}) { a: Int }\n"),
         ("unknown_type", "corpus:value_for_unknown_type", "directive @d(x: Nope, y: [Nope!]) on OBJECT\ntype Query @d(x: 1, y: [2]) { a: Int }\n"),
@@ -1309,6 +1351,13 @@ fn corpus() -> Vec<(&'static str, &'static str, &'static str)> {
         ("x_empty_object", "corpus:object_without_fields", "type A\ntype Query { a: A }\n"),
         ("x_empty_union", "corpus:union_without_members", "union U\ntype Query { u: U }\n"),
         ("iface_field_missing", "corpus:object_without_fields_implements", "interface I { f: Int }\ntype A implements I\ntype Query { a: A }\n"),
+        ("directive_recursive", "corpus:nested_3_levels", "directive @r(a: [A!]) on INPUT_FIELD_DEFINITION\ninput A { f: B }\ninput B { f: [C] }\ninput C { g: Int @r }\ntype Query { a: Int }\n"),
+        ("directive_recursive", "corpus:nested_input_cycle_with_directive", "directive @r(a: A) on INPUT_FIELD_DEFINITION\ninput A { f: B, self: A }\ninput B { back: A, g: Int @r }\ntype Query { a: Int }\n"),
+        ("valid", "corpus:nested_input_cycle_without_directive", "directive @r(a: A) on INPUT_FIELD_DEFINITION\ninput A { f: B, self: A }\ninput B { back: A, g: Int }\ntype Query { a: Int }\n"),
+        ("directive_recursive", "corpus:nested_via_second_argument_after_shared_type", "directive @r(a: A, b: B) on INPUT_FIELD_DEFINITION\ninput A { f: C }\ninput B { f: C, g: D }\ninput C { x: Int }\ninput D { y: Int @r }\ntype Query { a: Int }\n"),
+        ("directive_args", "corpus:nested_variables_in_custom_scalar_literal", "directive @d(s: Sc, t: [Sc!]) on OBJECT\nscalar Sc\ntype Query @d(s: {k: [$a, 1]}, t: [[$b], 2]) { a: Int }\n"),
+        ("directive_args", "corpus:dup_literal_field_ill_typed", "directive @d(x: In) on OBJECT\ninput In { a: Int }\ntype Query @d(x: {a: 1, a: \"s\"}) { a: Int }\n"),
+        ("directive_args", "corpus:variable_for_nonnull_with_default", "directive @d(x: Int! = 1, i: In) on OBJECT\ninput In { a: Int! = 2 }\ntype Query @d(x: $v, i: {a: $w}) { a: Int }\n"),
         ("directive_recursive", "corpus:via_enum_value", "directive @tag(level: Level) on ENUM_VALUE\nenum Level { LOW @tag(level: HIGH) HIGH }\ntype Query { a: Int }\n"),
         ("directive_recursive", "corpus:via_enum_value_in_extension", "directive @tag(level: Level) on ENUM_VALUE\nenum Level { LOW HIGH }\nextend enum Level { MID @tag(level: LOW) }\ntype Query { a: Int }\n"),
         ("directive_recursive", "corpus:via_enum_type", "directive @tag(level: [Level!]) on ENUM\nenum Level @tag { LOW }\ntype Query { a: Int }\n"),
